@@ -329,21 +329,23 @@ func (p *Parser) parseBuffer(buf []byte, last bool) error {
 			p.num.Reset()
 			p.mode = digitMap
 			p.num.I = uint64(b - '0')
-			for i, b = range buf[off+1:] {
-				if digitMap[b] != numDigit {
-					break
+			if off+1 < len(buf) {
+				for i, b = range buf[off+1:] {
+					if digitMap[b] != numDigit {
+						break
+					}
+					if BigLimit <= p.num.I {
+						p.num.FillBig()
+						p.num.AddDigit(b)
+						break
+					}
+					p.num.I = p.num.I*10 + uint64(b-'0')
 				}
-				if BigLimit <= p.num.I {
-					p.num.FillBig()
-					p.num.AddDigit(b)
-					break
+				if digitMap[b] == numDigit {
+					off++
 				}
-				p.num.I = p.num.I*10 + uint64(b-'0')
+				off += i
 			}
-			if digitMap[b] == numDigit {
-				off++
-			}
-			off += i
 		case valNeg:
 			p.mode = negMap
 			p.num.Reset()
